@@ -346,6 +346,120 @@ fn run_machine(case: &Value) -> Value {
     json!({"obs": obs})
 }
 
+/// Round 5 -- the *async device-task* entry point: `AsyncTimerKeyboardTask` (the public task that calls
+/// `CoreRuntime::tick_timers_and_keyboard` once per driver cycle) spawned on an `AsyncDriver`, with the host
+/// acting on the shared runtime between driver slices.  No timer semantics here: every op is one public call.
+///   "entry": "run" | "run_for" (then "run_for_cycles": N)       which public method of the task is spawned
+///   ["a", c]     let every wake-up scheduled for a driver cycle <= c run: `driver.run_for(c + 1 - driver.clock())`
+///   ["w", v]     firmware-style ISR write
+///   ["r"]        `timer.reset(now)`                              (now = the cycle of the last ["a"])
+///   ["p", m, s]  host reprograms the periods (public fields) and calls `timer.reset(now)`
+///   ["c", k]     keep `timer.snapshot_info()` in slot k
+///   ["L", k]     `timer.apply_snapshot_info(slot k, now)` on the live timer (restore of an earlier snapshot)
+///   ["s", j]     snapshot_info -> (j=1: serde round trip) -> apply_snapshot_info at the same point
+/// Observation per op: [next_mti, next_sti, ISR, driver clock, mti_period, sti_period].
+fn run_async(case: &Value) -> Value {
+    use sc62015_core::{AsyncDriver, AsyncTimerKeyboardTask};
+    use std::cell::RefCell;
+    use std::rc::Rc;
+
+    let enabled = get_bool(case, "enabled", true);
+    let mti = get_u64(case, "mti", 0).min(i32::MAX as u64) as i32;
+    let sti = get_u64(case, "sti", 0).min(i32::MAX as u64) as i32;
+    let mut rt = CoreRuntime::new();
+    *rt.timer = TimerContext::new(enabled, mti, sti);
+    rt.memory
+        .write_internal_byte(ISR, get_u64(case, "isr0", 0) as u8);
+    let runtime = Rc::new(RefCell::new(rt));
+    let task = AsyncTimerKeyboardTask::new(runtime.clone());
+    let mut driver = AsyncDriver::new();
+    let entry = case.get("entry").and_then(|v| v.as_str()).unwrap_or("run");
+    let n_for = get_u64(case, "run_for_cycles", 0);
+    if entry == "run_for" {
+        driver.spawn(async move {
+            task.run_for(n_for).await;
+        });
+    } else {
+        driver.spawn(async move {
+            task.run().await;
+        });
+    }
+    let mut slots: Vec<Option<(TimerInfo, InterruptInfo)>> = vec![None, None, None, None];
+    let mut now: u64 = 0;
+    let mut obs: Vec<Value> = Vec::new();
+    let empty = Vec::new();
+    let ops = case.get("ops").and_then(|v| v.as_array()).unwrap_or(&empty);
+    for op in ops {
+        let verb = op.get(0).and_then(|v| v.as_str()).unwrap_or("");
+        let arg = op.get(1).and_then(|v| v.as_u64()).unwrap_or(0);
+        let arg2 = op.get(2).and_then(|v| v.as_u64()).unwrap_or(0);
+        match verb {
+            "a" => {
+                if arg + 1 > driver.clock() {
+                    let budget = arg + 1 - driver.clock();
+                    let _ = driver.run_for(budget);
+                }
+                now = arg;
+            }
+            "w" => {
+                runtime
+                    .borrow_mut()
+                    .memory
+                    .write_internal_byte(ISR, arg as u8);
+            }
+            "r" => {
+                runtime.borrow_mut().timer.reset(now);
+            }
+            "p" => {
+                let mut rt = runtime.borrow_mut();
+                rt.timer.mti_period = arg;
+                rt.timer.sti_period = arg2;
+                rt.timer.reset(now);
+            }
+            "c" => {
+                let k = (arg as usize).min(slots.len() - 1);
+                slots[k] = Some(runtime.borrow().timer.snapshot_info());
+            }
+            "L" => {
+                let k = (arg as usize).min(slots.len() - 1);
+                match slots[k].as_ref() {
+                    Some((ti, ii)) => runtime.borrow_mut().timer.apply_snapshot_info(ti, ii, now),
+                    None => return json!({"error": format!("slot {k} is empty"), "obs": obs}),
+                }
+            }
+            "s" => {
+                let (ti, ii) = runtime.borrow().timer.snapshot_info();
+                let (ti, ii): (TimerInfo, InterruptInfo) = if arg == 1 {
+                    let a = serde_json::to_string(&ti).expect("TimerInfo serialises");
+                    let b = serde_json::to_string(&ii).expect("InterruptInfo serialises");
+                    (
+                        serde_json::from_str(&a).expect("TimerInfo deserialises"),
+                        serde_json::from_str(&b).expect("InterruptInfo deserialises"),
+                    )
+                } else {
+                    (ti, ii)
+                };
+                runtime
+                    .borrow_mut()
+                    .timer
+                    .apply_snapshot_info(&ti, &ii, now);
+            }
+            _ => return json!({"error": format!("unknown op {verb}")}),
+        }
+        let rt = runtime.borrow();
+        let isr = rt.memory.read_internal_byte(ISR).unwrap_or(0);
+        obs.push(json!([
+            rt.timer.next_mti,
+            rt.timer.next_sti,
+            isr,
+            driver.clock(),
+            rt.timer.mti_period,
+            rt.timer.sti_period
+        ]));
+    }
+    json!({"obs": obs})
+}
+
 fn guarded<F: FnOnce() -> Value>(f: F) -> Value {
     match std::panic::catch_unwind(std::panic::AssertUnwindSafe(f)) {
         Ok(v) => v,
@@ -368,6 +482,12 @@ pub fn handle(verb: &str, req: &Value, _st: &mut State) -> Value {
             let empty = Vec::new();
             let cases = req.get("cases").and_then(|v| v.as_array()).unwrap_or(&empty);
             let results: Vec<Value> = cases.iter().map(|c| guarded(|| run_machine(c))).collect();
+            json!({"ok": true, "results": results})
+        }
+        "async" => {
+            let empty = Vec::new();
+            let cases = req.get("cases").and_then(|v| v.as_array()).unwrap_or(&empty);
+            let results: Vec<Value> = cases.iter().map(|c| guarded(|| run_async(c))).collect();
             json!({"ok": true, "results": results})
         }
         "batch" => {
